@@ -119,19 +119,38 @@ pub fn realise(g: &Graph, real: Real, order: &[usize]) -> String {
 /// `refs_other_case`: every reference to a declaration is spelled in lower case although the declaration
 /// is spelled with an upper-case letter (identifiers are case-insensitive).
 pub fn realise_spelled(g: &Graph, real: Real, order: &[usize], refs_other_case: bool) -> String {
+    realise_decorated(g, real, order, refs_other_case, "")
+}
+
+/// `decoration`: further variables / elements beside the ones that carry the graph's edges — declarations on a
+/// cycle are rarely that bare. "init-struct-before" / "init-struct-after": a variable of a structure type with an
+/// initialiser before / after the edge variables; "mixed-before": an initialised enumeration variable, an array
+/// and a string before them.
+pub fn realise_decorated(g: &Graph, real: Real, order: &[usize], refs_other_case: bool, decoration: &str) -> String {
     let (rf, rt) = if refs_other_case { ("f", "t") } else { ("F", "T") };
     let mut s = String::new();
+    let (before, after): (&str, &str) = match decoration {
+        "init-struct-before" => ("  deco : Pdeco := (x := 1);\n", ""),
+        "init-struct-after" => ("", "  deco : Pdeco := (x := 1);\n"),
+        "mixed-before" => ("  dlv : Ldeco := Lo;\n  darr : ARRAY [1..2] OF INT;\n  dstr : STRING;\n", ""),
+        _ => ("", ""),
+    };
+    if !decoration.is_empty() {
+        s.push_str("TYPE\n  Pdeco : STRUCT\n    x : INT;\n  END_STRUCT;\n  Ldeco : (Lo, Hi);\nEND_TYPE\n");
+    }
     match real {
         Real::Fb => {
             for &i in order {
                 s.push_str(&format!("FUNCTION_BLOCK F{}\n", i));
                 if g.out_degree(i) != 0 {
                     s.push_str("VAR\n");
+                    s.push_str(before);
                     for j in 0..g.n {
                         if g.has(i, j) {
                             s.push_str(&format!("  v{}_{} : {}{};\n", i, j, rf, j));
                         }
                     }
+                    s.push_str(after);
                     s.push_str("END_VAR\n");
                 }
                 s.push_str("END_FUNCTION_BLOCK\n");
@@ -180,11 +199,13 @@ pub fn realise_spelled(g: &Graph, real: Real, order: &[usize], refs_other_case: 
                     s.push_str(&format!("  T{} : {}{};\n", i, rt, j));
                 } else {
                     s.push_str(&format!("  T{} : STRUCT\n", i));
+                    s.push_str(before);
                     for j in 0..g.n {
                         if g.has(i, j) {
                             s.push_str(&format!("    e{}_{} : {}{};\n", i, j, rt, j));
                         }
                     }
+                    s.push_str(after);
                     s.push_str("  END_STRUCT;\n");
                 }
             }
@@ -239,7 +260,7 @@ struct Res {
 }
 
 fn order_of(n: usize, name: &str) -> Vec<usize> {
-    match name {
+    match name.split('+').next().unwrap_or(name) {
         "desc" => (0..n).rev().collect(),
         _ => (0..n).collect(),
     }
@@ -247,7 +268,8 @@ fn order_of(n: usize, name: &str) -> Vec<usize> {
 
 fn judge(g: &Graph, real: Real, order_name: &str, family: &str) -> Res {
     let order = order_of(g.n, order_name);
-    let text = realise_spelled(g, real, &order, order_name.contains("other-case"));
+    let decoration = order_name.split_once('+').map(|x| x.1).unwrap_or("");
+    let text = realise_decorated(g, real, &order, order_name.contains("other-case"), decoration);
     let (verdict, _) = check_texts(&[&text]);
     let cyclic = g.cyclic();
     let codes = verdict.codes();
@@ -378,7 +400,7 @@ fn families() -> Vec<(String, Graph)> {
 }
 
 pub fn run(ctx: &mut Ctx) {
-    ctx.rule = "every digraph on n nodes (bitmask over n*n possible edges, self-loops included) x realisations (FB instances; all-struct types; alias for out-degree 1 else struct; function blocks and structures mixed — every assignment of the two kinds for n <= 3, four assignments for n = 4) x {ascending, descending declaration order, ascending with every reference spelled in the other letter case}; distinct = distinct program text; all are non-trivial (each is a different reference graph)".into();
+    ctx.rule = "every digraph on n nodes (bitmask over n*n possible edges, self-loops included) x realisations (FB instances; all-struct types; alias for out-degree 1 else struct; function blocks and structures mixed — every assignment of the two kinds for n <= 3, four assignments for n = 4; function blocks and structures also with further variables / elements beside the edge-carrying ones) x {ascending, descending declaration order, ascending with every reference spelled in the other letter case}; distinct = distinct program text; all are non-trivial (each is a different reference graph)".into();
     ctx.assumptions.push("reference oracle: a digraph is cyclic iff iterated deletion of successor-free nodes leaves a non-empty rest (harness code, independent of petgraph)".into());
     ctx.assumptions.push("recursion is 'reported' iff the codes contain P0010 or P0013; other codes (e.g. P9999 for unsupported constructs) are ignored in the acyclic direction".into());
     let reals = [Real::Fb, Real::Struct, Real::AliasMix];
@@ -400,6 +422,19 @@ pub fn run(ctx: &mut Ctx) {
                         order_name: o,
                         family: format!("all-n{}", n),
                     });
+                }
+            }
+        }
+    }
+    // decorated declarations: further variables / elements beside the edge-carrying ones
+    for n in 1..=max_n {
+        let bits = n * n;
+        let decos: &[&'static str] = if n <= 3 { &["asc+init-struct-before", "asc+init-struct-after", "asc+mixed-before", "desc+init-struct-before"] } else { &["asc+init-struct-before", "asc+mixed-before"] };
+        for mask in 0u64..(1u64 << bits) {
+            let g = Graph::from_mask(n, mask);
+            for real in [Real::Fb, Real::Struct] {
+                for o in decos {
+                    cases.push(Case { g: g.clone(), real, order_name: o, family: format!("decorated-n{}", n) });
                 }
             }
         }
